@@ -11,7 +11,7 @@ def block(name, text, s):
     return re.sub(re.escape(b) + r".*?" + re.escape(e), lambda m: b + "\n" + text + "\n" + e, s, flags=re.S)
 def one(x):
     return re.sub(r"\s+", " ", str(x)).replace("|", "/")
-rows = ["| seeded change | property | what it breaks / needs | outcome against the check |", "|---|---|---|---|"]
+rows = ["| seeded change | property | what it breaks / needs | history: outcome when first tried, and after strengthening | latest regression run of the current check (tools/seed_regression.sh) |", "|---|---|---|---|---|"]
 for d in sorted(glob.glob(os.path.join(HERE, "seeded", "*"))):
     try:
         m = json.load(open(os.path.join(d, "meta.json")))
@@ -20,7 +20,12 @@ for d in sorted(glob.glob(os.path.join(HERE, "seeded", "*"))):
     what = m.get("clause") or m.get("breaks") or ""
     needs = m.get("needs", "")
     out = m.get("confirmed_by_lead") or m.get("confirmed") or ""
-    rows.append("| %s | %s | %s — needs: %s | %s |" % (os.path.basename(d), m.get("property", ""), one(what)[:400], one(needs)[:300], one(out)[:500]))
+    try:
+        r = json.load(open(os.path.join(d, "regression.json")))
+        reg = "**%s** (%s, /repo %s, /verif %s)" % (r["result"], r.get("when", ""), r.get("repo_head", ""), r.get("verif_head", ""))
+    except Exception:
+        reg = "not re-run"
+    rows.append("| %s | %s | %s — needs: %s | %s | %s |" % (os.path.basename(d), m.get("property", ""), one(what)[:400], one(needs)[:300], one(out)[:500], reg))
 man = json.load(open(os.path.join(HERE, "MANIFEST.json")))
 st = ["| property | claimed | level note |", "|---|---|---|"]
 for c in man["checks"]:
